@@ -598,4 +598,9 @@ class Client(object):
                 ctx.violation("%s.query_wrong" % self.prop,
                               dict(task=self.name, op=op, got=show(got),
                                    want=show(want), len=len(L)))
+            if isinstance(got, list) and got:
+                # the caller owns a returned list: changing it in place must
+                # not reach the recurrence's own state
+                got.reverse()
+                del got[0]
         return True
